@@ -37,6 +37,12 @@ type TraceFile struct {
 func RunWorld(cfg WorldCfg, keepLog bool) (w *World, herr string) {
 	defer func() {
 		if r := recover(); r != nil {
+			if w != nil && len(w.Viol) > 0 {
+				// the harness lost its footing after a violation (of another
+				// property) had already been recorded: keep what was observed
+				w.inconclusive("world aborted after a recorded violation: %v", r)
+				return
+			}
 			herr = fmt.Sprintf("%v\n%s", r, debug.Stack())
 		}
 	}()
